@@ -29,6 +29,7 @@ type signerSpec struct {
 	SkipCerts     bool   // SignerInfoConfig.SkipCertificates; the certificate is added later with AddCertificate
 	ExtraSigned   int    // number of extra authenticated attributes
 	ExtraUnsigned int    // number of extra unauthenticated attributes
+	EncAlg        string // SignWithoutAttr only: SetEncryptionAlgorithm value ("" = derived from the key): rsa | rsa-with-digest | ecdsa-with-digest | curve-oid | sm2
 }
 
 const (
@@ -50,7 +51,7 @@ func (s sdSpec) Key() string {
 	var b strings.Builder
 	fmt.Fprintf(&b, "%v/%d/%d/%x/%v", s.SM, s.Mode, s.Len, s.Seed, s.Extra)
 	for _, g := range s.Signers {
-		fmt.Fprintf(&b, "|%s,%s,%v,%v,%v,%d,%d", g.Id, g.Digest, g.NoAttr, g.Chain, g.SkipCerts, g.ExtraSigned, g.ExtraUnsigned)
+		fmt.Fprintf(&b, "|%s,%s,%v,%v,%v,%d,%d,%s", g.Id, g.Digest, g.NoAttr, g.Chain, g.SkipCerts, g.ExtraSigned, g.ExtraUnsigned, g.EncAlg)
 	}
 	return b.String()
 }
@@ -69,6 +70,26 @@ func digestOID(name string) asn1.ObjectIdentifier {
 		return pkcs7.OIDDigestAlgorithmSHA512
 	}
 	panic("unknown digest " + name)
+}
+
+// encAlgOID is the SetEncryptionAlgorithm value of a signer (nil: derive from the key).
+func encAlgOID(name string, who *ident, digest string) asn1.ObjectIdentifier {
+	switch name {
+	case "rsa":
+		return pkcs7.OIDEncryptionAlgorithmRSA
+	case "rsa-with-digest":
+		return map[string]asn1.ObjectIdentifier{"sha1": pkcs7.OIDEncryptionAlgorithmRSASHA1, "sha256": pkcs7.OIDEncryptionAlgorithmRSASHA256,
+			"sha384": pkcs7.OIDEncryptionAlgorithmRSASHA384, "sha512": pkcs7.OIDEncryptionAlgorithmRSASHA512}[digest]
+	case "ecdsa-with-digest":
+		return map[string]asn1.ObjectIdentifier{"sha1": pkcs7.OIDDigestAlgorithmECDSASHA1, "sha256": pkcs7.OIDDigestAlgorithmECDSASHA256,
+			"sha384": pkcs7.OIDDigestAlgorithmECDSASHA384, "sha512": pkcs7.OIDDigestAlgorithmECDSASHA512}[digest]
+	case "curve-oid":
+		return map[string]asn1.ObjectIdentifier{"p256": pkcs7.OIDEncryptionAlgorithmECDSAP256, "p384": pkcs7.OIDEncryptionAlgorithmECDSAP384,
+			"p521": pkcs7.OIDEncryptionAlgorithmECDSAP521}[keyType(who)]
+	case "sm2":
+		return pkcs7.OIDDigestEncryptionAlgorithmSM2
+	}
+	return nil
 }
 
 func digestByOID(oid string) string {
@@ -90,6 +111,9 @@ func myHash(name string, data []byte) []byte {
 	case "sha1":
 		d := sha1.Sum(data)
 		return d[:]
+	case "sha224":
+		d := sha256.Sum224(data)
+		return d[:]
 	case "sha256":
 		d := sha256.Sum256(data)
 		return d[:]
@@ -107,6 +131,8 @@ func cryptoHash(name string) crypto.Hash {
 	switch name {
 	case "sha1":
 		return crypto.SHA1
+	case "sha224":
+		return crypto.SHA224
 	case "sha256":
 		return crypto.SHA256
 	case "sha384":
@@ -186,6 +212,8 @@ func buildSigned(s sdSpec) (*built, error) {
 		for k := 0; k < g.ExtraUnsigned; k++ {
 			cfg.ExtraUnsignedAttributes = append(cfg.ExtraUnsignedAttributes, extraAttr(false, k))
 		}
+		// the value is remembered by the builder: set (or reset to "derive") it for every signer
+		sd.SetEncryptionAlgorithm(encAlgOID(g.EncAlg, who, g.Digest))
 		switch {
 		case g.NoAttr:
 			err = sd.SignWithoutAttr(who.cert, who.key, cfg)
@@ -331,6 +359,9 @@ func (s sdSpec) labels(r interface{ Label(string, ...any) }) {
 			a = "noattr"
 		}
 		r.Label("alg:%s-%s", id(g.Id).kind, g.Digest)
+		r.Label("key:%s", keyType(id(g.Id)))
+		r.Label("pair:%s/%s", keyType(id(g.Id)), g.Digest)
+		r.Label("flavour:%s/%s/%s", keyType(id(g.Id)), [...]string{"attached", "detached", "digest-only"}[s.Mode], a)
 		r.Label("sign:%s", a)
 		if g.Chain {
 			r.Label("opt:chain")
@@ -511,6 +542,12 @@ func checkSignedCompleteInner(s sdSpec, r recLike, deepSM2 bool) error {
 			signed, prehashed = b.digest, true
 		}
 		if g.NoAttr {
+			if want := encAlgOID(g.EncAlg, who, g.Digest); want != nil && si.SigOID != want.String() {
+				return fmt.Errorf("signer %d: signature algorithm %s, SetEncryptionAlgorithm was given %s: %s", i, si.SigOID, want, desc())
+			}
+			if g.EncAlg != "" {
+				r.Label("encalg:%s/%s", keyType(who), g.EncAlg)
+			}
 			if si.Attrs != nil {
 				return fmt.Errorf("signer %d: SignWithoutAttr produced authenticated attributes: %s", i, desc())
 			}
